@@ -141,13 +141,13 @@ def main():
         ports = rng.sample([443, 44330, 8443, 9443, 4433, 1234, 50000], rng.choice([1, 2, 3]))
         conns = []
         for j, sp in enumerate(ports):
-            if rng.randrange(3) == 0:
+            if rng.randrange(2) == 0:
                 conns.append(pool.quic_conn(rng, h, idx=j + 1, server_port=sp, napp=3))
             else:
                 conns.append(pool.tls_conn(rng, table, h, idx=j + 1, server_port=sp, nrec=3, reclen=40))
         case = pool.build(rng, conns, h)
         argv = []
-        extra = [p for p in ports if p not in (443, 44330) and rng.randrange(3) > 0]
+        extra = [p for p in ports if p not in (443, 44330) and rng.randrange(2) > 0]
         for p in extra:
             if rng.randrange(2) or not argv:
                 argv += ["-p", str(p)]
@@ -158,7 +158,7 @@ def main():
         if mode == "bare":
             argv.append("-m")
         elif mode.startswith("pairs"):
-            prs = ["%d:%d" % (p, rng.choice([8080, 8081, 9000, 10000 + j])) for j, p in enumerate(ports) if rng.randrange(3) > 0]
+            prs = ["%d:%d" % (p, rng.choice([8081, 9000, 10000 + j])) for j, p in enumerate(ports) if rng.randrange(4) > 0]
             if mode == "pairs-comma":
                 prs = [x + "," for x in prs]
             argv += ["-m"] + prs
